@@ -303,11 +303,16 @@ def make_session(M, ch, rng, sysd, mats_shared, sid, st, reuse=None, pre_use=Fal
     s.last = 0
     s.kw = dict(d0=None if s.d0 is None else s.d0.copy(), v0=None if s.v0 is None else s.v0.copy(), static_ic=s.static_ic)
     f0arg = F0.copy()
+    sut_kw = {k: (v.copy() if isinstance(v, np.ndarray) else v) for k, v in s.kw.items()}
     with _Sut("generator()", session=sid):
-        s.gen, s.d, s.v = s.ts.generator(nt, f0arg, **s.kw)
+        s.gen, s.d, s.v = s.ts.generator(nt, f0arg, **sut_kw)
     if ch.flip(1, 3, "F0_buffer_reused"):
-        # the caller's initial-force array is its send buffer: overwritten as soon as generator() returns
+        # the caller's initial-force array (and its d0 / v0 arrays) are scratch memory:
+        # overwritten as soon as generator() returns
         f0arg[:] = np.nan
+        for v in sut_kw.values():
+            if isinstance(v, np.ndarray):
+                v[:] = np.nan
         st.fault("F0_buffer_reused")
     s.col0 = (s.d[:, 0].copy(), s.v[:, 0].copy())
     s.sent_any = False
